@@ -54,7 +54,7 @@ let rec parse_rw (v : value) : rw =
   match as_list v with
   | [I "0"] -> RThis
   | [I "1"] -> RTTU
-  | [I "2"; i] -> RComputed (nat_of_int (as_int i))
+  | [I "2"; i] -> RComputed (n_of_int (as_int i))
   | I "3" :: l -> RNode (List.map parse_rw l)
   | _ -> failwith "bad rewrite"
 
@@ -220,12 +220,12 @@ let f _id vs =
     let c = as_int cl in
     let types = List.map (fun t -> List.map parse_rw (as_list t)) (as_list abs) in
     let nodes = List.fold_left (fun a t -> List.fold_left (fun a r -> a + rw_count r) (a + 1) t) 0 types in
-    let budget = 300000 in
+    let budget = 100000 in
     let (res, _) = model_cost (nat_of_int (nodes + 8)) types (n_of_int budget) in
     let expensive = (res = HBudget) in
     if c = 7 then
       (if expensive then
-         Printf.sprintf "KNOWN model_validation_exponential hasCycle needs more than %d calls for this model (%d rewrite nodes)" budget nodes
+         Printf.sprintf "KNOWN model_validation_hascycle_cost hasCycle needs more than %d calls for this model (%d rewrite nodes)" budget nodes
        else "PROP deadline overrun on a model whose hasCycle cost is small")
     else if bad_class c then "PROP model case: " ^ class_name c
     else "OK"
